@@ -220,7 +220,7 @@ def _tensor_bindings(rng, tensor, order, loop, buffet, style_p=0.3):
     return out
 
 
-def gen_synth(rng):
+def gen_synth(rng, lf_any_leader=False):
     n = classes._choice_w(rng, [(1, 3), (2, 4), (3, 4)])
     decl = {"A": ["K", "M"], "B": ["K", "N"], "C": ["M", "N"], "D": ["N"], "T": ["K", "M", "N"],
             "Z": ["M", "N"], "Y": ["M"]}
@@ -349,8 +349,14 @@ def gen_synth(rng):
                 for r in rs:
                     b = {"rank": r}
                     if c == "LF":
-                        # leader = first operand of the term holding the rank (known finding C11-LF-ORDER)
+                        # leader = first operand of the term holding the rank (known finding C11-LF-ORDER) ...
                         b["leader"] = hold[r][0]
+                        below = {len([x for x in lo[o][lo[o].index(r) + 1:] if x in decl[t_]]) for t_ in hold[r]}
+                        if lf_any_leader and len(below) == 1 and 0 not in below and rng.random() < 0.5:
+                            # ... except where only the traces are judged (C12): any holder may lead, provided
+                            # the operands have the same depth below the rank (the mis-destructured payloads of
+                            # C11-LF-ORDER then still iterate)
+                            b["leader"] = rng.choice(hold[r])
                     bs.append(b)
                 bl.append({"component": c, "bindings": bs})
             else:
@@ -388,7 +394,7 @@ def gen_synth(rng):
     return spec, meta
 
 
-def gen_synth_part(rng):
+def gen_synth_part(rng, lf_any_leader=False):
     """Metrics mode over a dynamically / statically partitioned matmul: functional components only
     (compute, sequencer, one intersector), so that hoisting of partitioning statements and the
     metrics hooks meet in one flow graph."""
@@ -432,14 +438,13 @@ def gen_synth_part(rng):
         c = rng.choice(["TF", "SA", "LF"])
         b = {"rank": klev[-1]}
         if c == "LF":
-            b["leader"] = "A"
+            b["leader"] = rng.choice(["A", "B"]) if lf_any_leader else "A"
         bl.append({"component": c, "bindings": [b]})
     if rng.random() < 0.5:
         # hardware merger bound to a tensor that is partitioned before the merge: init-ranks name partition levels
         # ... statically: a merger on a tensor that is split inside the loop nest (uniform_occupancy) is known
         # finding MERGER-DYNPART (the init-ranks never exist together; witness only)
-        static = [t for t in ("A", "B") if all(d.startswith(("uniform_shape", "nway_shape"))
-                                                for r in decl[t] for d in part.get(r, []))]
+        static = [t for t in ("A", "B") if _merge_ok(t, decl, part, lo)]
         t = rng.choice(static) if static else "A"
         init = []
         for r in decl[t]:
@@ -453,6 +458,29 @@ def gen_synth_part(rng):
     return spec, meta
 
 
+MERGER_ANY = False    # probes only: lift the MERGER-DYNPART restriction
+
+
+def _merge_ok(t, decl, part, lo):
+    """May a merger be bound to tensor t after partitioning?  Only if its init-ranks exist together on one
+    tensor object: every partitioned rank of t is split statically (shape directives), or t itself leads a
+    single one-level occupancy split that happens in front of the loop nest (its upper level is the first of
+    t's ranks in loop order).  Everything else is known finding MERGER-DYNPART."""
+    if MERGER_ANY:
+        return True
+    dyn = [r for r in decl[t] if any(d.startswith("uniform_occupancy") for d in part.get(r, []))]
+    if not dyn:
+        return True
+    if len(dyn) > 1:
+        return False
+    r = dyn[0]
+    ds = part[r]
+    if len(ds) != 1 or not ds[0].startswith("uniform_occupancy(%s." % t):
+        return False
+    mine = [x for x in lo if x.rstrip("0123456789") in decl[t]]
+    return bool(mine) and mine[0] == r + "1"
+
+
 def _append_bindings(bl, comp, items):
     if comp == "L2":
         items = [{k: v for k, v in b.items() if k not in ("evict-on", "style")} for b in items]
@@ -463,13 +491,13 @@ def _append_bindings(bl, comp, items):
     bl.append({"component": comp, "bindings": items})
 
 
-def gen_metrics(rng, repo="/repo", accel_p=0.35, part_p=0.15):
+def gen_metrics(rng, repo="/repo", accel_p=0.35, part_p=0.15, lf_any_leader=False):
     x = rng.random()
     if x < accel_p:
         return gen_accel(rng, repo)
     if x < accel_p + part_p:
-        return gen_synth_part(rng)
-    return gen_synth(rng)
+        return gen_synth_part(rng, lf_any_leader)
+    return gen_synth(rng, lf_any_leader)
 
 
 def gen_fusion_history(rng):
